@@ -63,6 +63,32 @@ impl SigVal {
             SigVal::VecU32(x) => x.iter().flat_map(|e| e.to_ne_bytes()).collect(),
         }
     }
+    /// the same value rebuilt with a different allocation history: spare capacity, and stale elements behind the length
+    /// (a longer vector that was truncated); equal values must give equal bytes
+    pub fn rebuilt(&self) -> SigVal {
+        fn re<T: Clone + Default>(x: &Vec<T>, filler: T) -> Vec<T> {
+            let mut v: Vec<T> = Vec::with_capacity(x.len() + 13);
+            v.extend(x.iter().cloned());
+            for _ in 0..7 {
+                v.push(filler.clone());
+            }
+            v.truncate(x.len());
+            v
+        }
+        match self {
+            SigVal::VecU8(x) => SigVal::VecU8(re(x, 0xEE)),
+            SigVal::VecU16(x) => SigVal::VecU16(re(x, 0xEEEE)),
+            SigVal::VecU32(x) => SigVal::VecU32(re(x, 0xEEEE_EEEE)),
+            SigVal::Str(x) => {
+                let mut s = String::with_capacity(x.len() + 29);
+                s.push_str(x);
+                s.push_str("stale-tail");
+                s.truncate(x.len());
+                SigVal::Str(s)
+            }
+            other => other.clone(),
+        }
+    }
     pub fn len(&self) -> usize {
         match self {
             SigVal::Str(x) => x.len(),
@@ -130,6 +156,8 @@ pub struct ProbeOut {
     /// get_sig() output, called twice (ownership bugs often show on the second call)
     pub sig: Vec<u8>,
     pub sig_again: Vec<u8>,
+    /// get_sig() of an equal value with spare capacity and stale elements behind its length
+    pub sig_rebuilt: Vec<u8>,
     pub sha_fwd: Vec<u64>,
     pub sha_rev: Vec<u64>,
 }
@@ -141,5 +169,6 @@ pub fn probe(v: &SigVal, with_sha: bool) -> ProbeOut {
     let sig_again = v.get_sig();
     std::hint::black_box(&churn);
     let (sha_fwd, sha_rev) = if with_sha { sha_probe(v) } else { (vec![], vec![]) };
-    ProbeOut { sig, sig_again, sha_fwd, sha_rev }
+    let sig_rebuilt = v.rebuilt().get_sig();
+    ProbeOut { sig, sig_again, sig_rebuilt, sha_fwd, sha_rev }
 }
